@@ -38,7 +38,10 @@ def unknown_name(draw):
 
 @st.composite
 def piece(draw):
-    k = draw(st.sampled_from(["lit", "lit", "meta", "ds", "ds", "ds", "dsarg", "unknown", "fail", "nested", "empty", "longenv"]))
+    k = draw(st.sampled_from(["lit", "lit", "meta", "ds", "ds", "ds", "dsarg", "unknown", "fail", "nested", "empty", "longenv", "hibyte"]))
+    if k == "hibyte":
+        # literal text is bytes, not ASCII: UTF-8 sequences and stray bytes >= 0x80 (negative as plain char) are copied verbatim
+        return ("lit", draw(st.sampled_from([b"\xc3\xa9", b"\xe2\x86\x92 ", b"\xff", b"\x80abc", b"\xf0\x9f\x98\x80", b"caf\xc3\xa9=", b"\xfe%"])))
     if k == "longenv":
         # a tag far longer than what it expands to: the FORMAT may exceed a limit that its expansion respects
         n = draw(st.sampled_from([60, 97, 98, 99, 100, 101, 200, 250, 400]))
@@ -304,6 +307,10 @@ def classify(c):
         cls.append("limits-before-format")
     if c.get("pre_errno"):
         cls.append("caller-errno-set")
+    if any(b >= 0x80 for b in fmt):
+        cls.append("non-ascii-literal")
+        if fmt[:1] >= b"\x80":
+            cls.append("format-starts-with-non-ascii-byte")
     if b"%{env:LN" in fmt:
         cls.append("long-tag-short-output")
         if len(fmt) > eff_log:
